@@ -38,6 +38,11 @@ NInf == RealS("ninf")
 NZero == RealS("nzero")
 P63 == RealS("p63")        \* 2^63 exactly (one above i64::MAX)
 N63 == RealS("n63")        \* -2^63 exactly (= i64::MIN)
+P53 == RealS("p53")        \* 2^53 exactly: the last point up to which every integer is a REAL
+P53b == RealS("p53b")      \* 2^53 + 2 (the next REAL)
+I53(i) == [t |-> "int", b |-> 3, i |-> i]     \* the integer 2^53 + i
+I31(i) == [t |-> "int", b |-> 4, i |-> i]     \* the integer 2^31 + i: its square fits 64 bits, the square of a sum of two does not
+Q25n == RealS("q25n")      \* the REAL right after 0.25 (0.25 + 2^-54): closer to 0.25 than f64::EPSILON
 BoolV(v)    == [t |-> "bool", v |-> v]
 TextV(s)    == [t |-> "text", s |-> s]
 ArrV(et, xs) == [t |-> "arr", et |-> et, xs |-> xs]
@@ -60,24 +65,27 @@ CmpIntSeq(a, b) ==
 
 -----------------------------------------------------------------------------
 \* Numbers.  Class of a number on the extended real line:
-\*   0 = -inf, 1 = near i64::MIN, 2 = ordinary (exact rational), 3 = near i64::MAX, 4 = +inf, 5 = NaN
+\*   0 = -inf, 1 = near i64::MIN, 2 = ordinary (exact rational), 3 = near i64::MAX, 4 = +inf, 5 = NaN, 23 = near 2^53 (between 2 and 3)
 NumClass(v) ==
-  IF v.t = "int" THEN (IF v.b = -1 THEN 1 ELSE IF v.b = 1 THEN 3 ELSE 2)
-  ELSE CASE v.c = "ninf" -> 0 [] v.c = "pinf" -> 4 [] v.c = "nan" -> 5 [] v.c = "p63" -> 3 [] v.c = "n63" -> 1 [] OTHER -> 2
+  IF v.t = "int" THEN (IF v.b = -1 THEN 1 ELSE IF v.b = 1 THEN 3 ELSE IF v.b = 3 THEN 23 ELSE IF v.b = 4 THEN 22 ELSE IF v.b = 2 THEN 22 ELSE 2)
+  ELSE CASE v.c = "ninf" -> 0 [] v.c = "pinf" -> 4 [] v.c = "nan" -> 5 [] v.c = "p63" -> 3 [] v.c = "n63" -> 1 [] v.c \in {"p53", "p53b"} -> 23 [] OTHER -> 2
+ClassPos(c) == IF c = 23 THEN 25 ELSE IF c = 22 THEN 22 ELSE c * 10          \* position of a class on the line: 0, 10, 20, 22 (2^31.. 2^32), 25, 30, 40, 50
 
 \* numerator / denominator of an ordinary number (-0.0 counts as 0)
-NumN(v) == IF v.t = "int" THEN v.i ELSE IF v.c = "fin" THEN v.n ELSE 0
-NumD(v) == IF v.t = "int" THEN 1 ELSE IF v.c = "fin" THEN v.d ELSE 1
+NumN(v) == IF v.t = "int" THEN v.i ELSE IF v.c = "fin" THEN v.n ELSE IF v.c = "q25n" THEN 1 ELSE 0
+NumD(v) == IF v.t = "int" THEN 1 ELSE IF v.c = "fin" THEN v.d ELSE IF v.c = "q25n" THEN 4 ELSE 1
+Eps(v) == IF v.t = "real" /\ v.c = "q25n" THEN 1 ELSE 0          \* an infinitesimal above the rational
 
 \* offset of a number near an end of the 64-bit range: INT MAX + i / MIN + i, REAL 2^63 = MAX + 1, REAL -2^63 = MIN + 0
-EdgeOff(v) == IF v.t = "int" THEN v.i ELSE IF v.c = "p63" THEN 1 ELSE 0
+EdgeOff(v) == IF v.t = "int" THEN v.i ELSE IF v.c = "p63" THEN 1 ELSE IF v.c = "p53b" THEN 2 ELSE 0
 
 \* numeric comparison by value, NaN equal to itself and above everything (total)
 CmpNum(a, b) ==
   LET ca == NumClass(a)  cb == NumClass(b)
-  IN IF ca # cb THEN CmpInt(ca, cb)
-     ELSE IF ca \in {1, 3} THEN CmpInt(EdgeOff(a), EdgeOff(b))
-     ELSE IF ca = 2 THEN CmpInt(NumN(a) * NumD(b), NumN(b) * NumD(a))
+  IN IF ca # cb THEN CmpInt(ClassPos(ca), ClassPos(cb))
+     ELSE IF ca \in {1, 3, 23} THEN CmpInt(EdgeOff(a), EdgeOff(b))
+     ELSE IF ca = 22 THEN (IF a.b # b.b THEN CmpInt(a.b, b.b) * (-1) ELSE CmpInt(a.i, b.i))        \* base 4 (2^31) below base 2 (2^32)
+     ELSE IF ca = 2 THEN (LET c == CmpInt(NumN(a) * NumD(b), NumN(b) * NumD(a)) IN IF c # 0 THEN c ELSE CmpInt(Eps(a), Eps(b)))
      ELSE 0
 
 TypeRank(v) == CASE v.t = "null" -> 0 [] v.t = "int" -> 1 [] v.t = "real" -> 1 [] v.t = "bool" -> 3
@@ -116,6 +124,7 @@ Canon(v) ==
   CASE v.t = "real" ->
          IF v.c = "nzero" THEN IntV(0)
          ELSE IF v.c = "n63" THEN MinV(0)
+         ELSE IF v.c = "p53" THEN I53(0) ELSE IF v.c = "p53b" THEN I53(2)
          ELSE IF v.c = "fin" /\ v.n % v.d = 0 THEN IntV(v.n \div v.d)
          ELSE v
     [] v.t = "arr" -> ArrV(v.et, [i \in 1..Len(v.xs) |-> Canon(v.xs[i])])
